@@ -47,6 +47,9 @@ func (c *Ctx) SetStates(states int) {
 	c.res.Replays = c.res.Evaluations
 }
 
+// Distinct returns the number of distinct non-trivial cases counted so far.
+func (c *Ctx) Distinct() int { return c.res.DistinctNontrivial }
+
 // Count increments a named counter.
 func (c *Ctx) Count(name string) { c.res.Counters[name]++ }
 
